@@ -215,8 +215,16 @@ func threadsWorkload(c *Case) bool {
 // empty one and linked to it).
 func emptiedWorkload(c *Case) bool {
 	dbh.NoBackground(true)
-	db := dbh.Open("c19e", 400, false)
+	db := dbh.Open("c19e", 120, false) // 30 frames, no index pins them: the filler table below does not fit
 	defer func() { func() { defer func() { recover() }(); db.Stop() }() }()
+	db.CreateTable(&dbh.TableDef{Name: "filler", Cols: []dbh.Col{{Name: "id", T: "i", Idx: dbh.IdxNone}, {Name: "s", T: "s", Idx: dbh.IdxNone}}})
+	for b := 0; b < 160; b += 20 {
+		var vals []string
+		for i := b; i < b+20; i++ {
+			vals = append(vals, fmt.Sprintf("(%d, '%s')", i, strings.Repeat("f", 900)))
+		}
+		db.FrontDoor("INSERT INTO filler(id, s) VALUES " + strings.Join(vals, ", ") + ";")
+	}
 	for trial := 0; trial < 25; trial++ {
 		name := fmt.Sprintf("em%d", trial)
 		if err := db.CreateTable(&dbh.TableDef{Name: name, Cols: []dbh.Col{{Name: "id", T: "i", Idx: dbh.IdxNone}, {Name: "s", T: "s", Idx: dbh.IdxNone}}}); err != nil {
@@ -233,12 +241,15 @@ func emptiedWorkload(c *Case) bool {
 		var wg sync.WaitGroup
 		for g := 0; g < 4; g++ {
 			wg.Add(1)
-			go func() {
+			go func(g int) {
 				defer wg.Done()
 				for n := 0; n < 6; n++ {
 					db.S.ExecuteSQL("SELECT id FROM " + name + " WHERE id >= 0 OR id = 7777777;")
+					if g == 0 { // frames are recycled all the time
+						db.S.ExecuteSQL("SELECT id FROM filler WHERE id >= 0 OR id = 7777777;")
+					}
 				}
-			}()
+			}(g)
 		}
 		wg.Add(1)
 		go func() {
@@ -307,25 +318,7 @@ func runWorkload(c *Case) (overlap bool, f *vf.Failure) {
 		rng := rand.New(rand.NewSource(c.Seed*31 + int64(id)))
 		for n := 0; n < c.Ops; n++ {
 			var q string
-			switch rng.Intn(8) {
-			case 6: // table e is filled with page-sized rows and emptied again and again while it is scanned: heaps whose leading
-				// pages hold no row any more, scans starting on them, pages appended behind them
-				switch rng.Intn(5) {
-				case 0, 1: // many small rows in one statement: the page's slot array grows
-					var vals []string
-					for i := 0; i < 40; i++ {
-						vals = append(vals, fmt.Sprintf("(%d, 'x')", atomic.AddInt64(&nextID, 1)))
-					}
-					q = "INSERT INTO e(id, s) VALUES " + strings.Join(vals, ", ") + ";"
-				case 2: // a row that does not fit behind a long array of dead slots: a page is appended
-					q = fmt.Sprintf("INSERT INTO e(id, s) VALUES (%d, '%s');", atomic.AddInt64(&nextID, 1), strings.Repeat("e", 3300+rng.Intn(300)))
-				case 3:
-					q = "DELETE FROM e WHERE id >= 0 OR id = 7777777;"
-				default:
-					q = "SELECT id FROM e WHERE id >= 0 OR id = 7777777;"
-				}
-			case 7:
-				q = "SELECT id FROM e WHERE id >= 0 OR id = 7777777;"
+			switch rng.Intn(6) {
 			case 0:
 				q = fmt.Sprintf("UPDATE t SET v = %d WHERE g = %d;", rng.Intn(1000), rng.Intn(4))
 			case 1:
@@ -533,7 +526,7 @@ func indexWorkload(db *dbh.DB, c *Case) bool {
 
 // ---- test ------------------------------------------------------------------------------------------------
 
-const rule = "Case = one run of a concurrent workload in a -race binary: 'sql' (4-12 goroutines calling SamehadaDB.ExecuteSQL: multi-row updates, selects, inserts, deletes, joins, relocating updates, a table that is filled with page-sized rows, emptied and scanned again and again), 'txn' (multi-statement transactions through parser/optimizer/planner/executors with commit/abort), 'mixed' (both + a goroutine forcing checkpoints and refreshing table statistics + a client creating tables), 'ddl' (sql/txn clients + a client creating tables all through the run + goroutines refreshing the statistics of every table without pause), 'emptied' (fresh tables whose only page is emptied, then scanned while a too-large row makes the heap grow), 'threads' (clients on an instance whose own checkpoint and statistics threads run, ended by the public Shutdown), 'index:<kind>' (inserters/deleters/readers/range scanners on one skip-list / unique-skip-list / B-tree / hash index); pools small enough to evict; in-memory and file-backed storage. Oracle: every WARNING: DATA RACE report of the Go race detector whose racing accesses have a frame inside github.com/ryogrid/SamehadaDB/lib is a violation, identified by the unordered pair of innermost repository functions (reports entirely inside third-party modules or the harness are counted but do not count). Non-trivial = a run in which at least two goroutines were inside engine calls at the same time."
+const rule = "Case = one run of a concurrent workload in a -race binary: 'sql' (4-12 goroutines calling SamehadaDB.ExecuteSQL: multi-row updates, selects, inserts, deletes, joins, relocating updates), 'txn' (multi-statement transactions through parser/optimizer/planner/executors with commit/abort), 'mixed' (both + a goroutine forcing checkpoints and refreshing table statistics + a client creating tables), 'ddl' (sql/txn clients + a client creating tables all through the run + goroutines refreshing the statistics of every table without pause), 'emptied' (fresh tables whose only page is emptied, then scanned while a too-large row makes the heap grow), 'threads' (clients on an instance whose own checkpoint and statistics threads run, ended by the public Shutdown), 'index:<kind>' (inserters/deleters/readers/range scanners on one skip-list / unique-skip-list / B-tree / hash index); pools small enough to evict; in-memory and file-backed storage. Oracle: every WARNING: DATA RACE report of the Go race detector whose racing accesses have a frame inside github.com/ryogrid/SamehadaDB/lib is a violation, identified by the unordered pair of innermost repository functions (reports entirely inside third-party modules or the harness are counted but do not count). Non-trivial = a run in which at least two goroutines were inside engine calls at the same time."
 
 var assumptions = []string{
 	"the race detector only sees executed schedules; absence of reports is not absence of races",
